@@ -208,6 +208,14 @@ def run_property(prop, tier, report):
             report.add_findings([f for f in tf if f["class"] in CLASSES[prop]], f"graph-trace-{lib}")
             tsum[lib] = ts
     cov = report.coverage
+    if prop == "C01":
+        # rich types: every component of the declaration / type universes (all value-type constructors,
+        # resources, used types, core module and component imports) registered and instantiated must
+        # encode to a valid component under the four option combinations
+        from . import decl
+        cf, cs = decl.c01_findings(tier)
+        report.add_findings(cf, "declcheck-encode")
+        cov["components_instantiated_and_encoded"] = cs["components"]
     cov["random_traces"] = tsum
     cov["samples"] = samples
     cov["states"] = total_states
